@@ -32,12 +32,12 @@ READY = True
 LEVEL_TEXT = ("Machine-checked Coq theorems over all finite error trees: Join is nil iff no constituent was supplied; Join of one "
               "constituent is that constituent; Unwind(Join) = supplied constituents, each once, most recent first; errors.Is on the "
               "result = errors.Is on some operand for every target (both directions) and finds exactly the nodes of the tree; "
-              "errors.As likewise; ParsePanic marks every panic except a []error value (refutation proved, known finding); the "
+              "errors.As likewise; Ok/Wrap/Wrapf/RemoveOk/Append never drop an error that still holds a constituent, including inner layers obtained with errors.Unwrap; ParsePanic marks every panic except a []error value (refutation proved, known finding); the "
               "Collector holds exactly the constituents added, sequentially and (LockedObject instance) for every concurrent trace. "
               "Model tied to /repo by differential correspondence on every run.")
 LEVEL_NOTE = ("Trusted: Coq kernel + vm_compute; hand-written tree model of ers.Stack/Join/Wrap/ParsePanic/internal.Unwind/"
               "erc.Collector; errors.Is/As, fmt.Errorf and errors.Join are modelled (standard library); correspondence is "
-              "differential testing (2.5k programs quick); the one-critical-section premise for the concurrent Collector is "
+              "differential testing (6k programs quick); the one-critical-section premise for the concurrent Collector is "
               "exercised by stress, not proved.")
 TECHNIQUE = ("Coq proof (nested structural induction over error trees and programs; LockedObject instance for the Collector) "
              "+ vm_compute correspondence against ers/erc + direct oracles on the implementation")
